@@ -2,7 +2,7 @@
    `run true` is the access order of the code after the fix: commits (tied to the code by the
    controlled-scheduler correspondence check); `run false` is the order of the pinned tree. *)
 From ZV.Common Require Import Base.
-From ZV.C16 Require Import Model ModelSeq ProofsBase ProofsInv ProofsStep ProofsMain ProofsRefute.
+From ZV.C16 Require Import Model ModelSeq ProofsBase ProofsInv ProofsStep ProofsMain ProofsRefute ProofsSeq.
 Open Scope N_scope.
 
 (* (i) one-writer-many-readers: for any number of threads, any programs, any schedule, at most one
@@ -129,6 +129,67 @@ Proof. exists cross_hist. exact cross_cache_two_writers. Qed.
 Check cache_crosses_managers_refuted : exists ops, handed_writers (srun_ops false ops sinit) 1 = 2.
 Print Assumptions cache_crosses_managers_refuted.
 
+(* ---- sequential histories over several managers, code after the fixes (any history whose
+        acquire requests are for a reader or a writer) ---- *)
+(* (iv) no token release - direct, through the thread cache, at the end of the history - is aimed at
+   a manager state that has been freed: a state lives as long as its handle or any token it issued *)
+Theorem seq_no_dangling :
+  forall ops, Forall wf_sop ops ->
+    dangling (srun_ops true ops sinit) = 0 /\ dangling (sfinish true (srun_ops true ops sinit)) = 0.
+Proof. exact seq_no_dangling_proof. Qed.
+Check seq_no_dangling :
+  forall ops, Forall wf_sop ops ->
+    dangling (srun_ops true ops sinit) = 0 /\ dangling (sfinish true (srun_ops true ops sinit)) = 0.
+Print Assumptions seq_no_dangling.
+
+(* a manager's acquire only ever returns tokens that this manager issued *)
+Theorem seq_own_tokens :
+  forall ops t, Forall wf_sop ops ->
+    In t (sheld (srun_ops true ops sinit)) -> tk (s_tok t) <> KRO -> s_by t = s_issuer t.
+Proof. exact seq_own_tokens_proof. Qed.
+Check seq_own_tokens :
+  forall ops t, Forall wf_sop ops ->
+    In t (sheld (srun_ops true ops sinit)) -> tk (s_tok t) <> KRO -> s_by t = s_issuer t.
+Print Assumptions seq_own_tokens.
+
+(* (iii) every manager's counters equal the numbers of live tokens (held or cached) it issued *)
+Theorem seq_counters_exact :
+  forall ops i g, Forall wf_sop ops ->
+    let st := srun_ops true ops sinit in
+    nth_error (mgrs st) i = Some g ->
+    ar (m_sh g) = cI KR i (sall st) /\ aw (m_sh g) = cI KW i (sall st).
+Proof. exact seq_counters_exact_proof. Qed.
+Check seq_counters_exact :
+  forall ops i g, Forall wf_sop ops ->
+    let st := srun_ops true ops sinit in
+    nth_error (mgrs st) i = Some g ->
+    ar (m_sh g) = cI KR i (sall st) /\ aw (m_sh g) = cI KW i (sall st).
+Print Assumptions seq_counters_exact.
+
+(* (iii) ... and return to zero once everything has been released *)
+Theorem seq_counters_zero :
+  forall ops i g, Forall wf_sop ops ->
+    nth_error (mgrs (sfinish true (srun_ops true ops sinit))) i = Some g ->
+    ar (m_sh g) = 0 /\ aw (m_sh g) = 0.
+Proof. exact seq_counters_zero_proof. Qed.
+Check seq_counters_zero :
+  forall ops i g, Forall wf_sop ops ->
+    nth_error (mgrs (sfinish true (srun_ops true ops sinit))) i = Some g ->
+    ar (m_sh g) = 0 /\ aw (m_sh g) = 0.
+Print Assumptions seq_counters_zero.
+
+(* (i) a OneWriteMultiRead manager never has two live writer tokens handed out by its acquire *)
+Theorem seq_writer_exclusion :
+  forall ops i g, Forall wf_sop ops ->
+    let st := srun_ops true ops sinit in
+    nth_error (mgrs st) i = Some g -> lvl (m_sh g) = 3 -> handed_writers st i <= 1.
+Proof. exact seq_writer_exclusion_proof. Qed.
+Check seq_writer_exclusion :
+  forall ops i g, Forall wf_sop ops ->
+    let st := srun_ops true ops sinit in
+    nth_error (mgrs st) i = Some g -> lvl (m_sh g) = 3 -> handed_writers st i <= 1.
+Print Assumptions seq_writer_exclusion.
+
 (* the hypotheses of the positive theorems are inhabited by non-trivial runs *)
 Example writer_exclusion_nontrivial :
   count_kind KW (live (run true w2_sched (init 3 w2_progs))) = 1.
@@ -136,3 +197,7 @@ Proof. vm_compute. reflexivity. Qed.
 Example min_le_live_nontrivial :
   In (Tok KR 2 1) (live (run true mo_sched (init 4 mo_progs))).
 Proof. vm_compute. left. reflexivity. Qed.
+Example seq_nontrivial :
+  Forall wf_sop cross_hist /\ handed_writers (srun_ops true cross_hist sinit) 1 = 1
+  /\ Forall wf_sop dangling_cache_hist.
+Proof. vm_compute. repeat split; repeat constructor; discriminate. Qed.
